@@ -2,13 +2,16 @@
 """seedsave.py <PROP> <letter> <needs> <caught_by>  - keep a confirmed seeded change under /verif/seeded/<PROP>-<letter>/"""
 import json, os, shutil, sys
 prop, L, needs, caught = sys.argv[1:5]
-src = '/tmp/seed/%s/out' % prop
+# optional: source directory name under /tmp/seed and source letter (round-2 seeds live in /tmp/seed/R2<PROP>/out)
+srcdir = sys.argv[5] if len(sys.argv) > 5 else prop
+SL = sys.argv[6] if len(sys.argv) > 6 else L
+src = '/tmp/seed/%s/out' % srcdir
 dst = '/verif/seeded/%s-%s' % (prop, L)
 os.makedirs(dst, exist_ok=True)
-shutil.copy('%s/%s_patch.diff' % (src, L), dst + '/patch.diff')
-shutil.copy('%s/%s_demo.rs' % (src, L), dst + '/demo.rs')
-meta_txt = open('%s/%s_meta.txt' % (src, L)).read()
+shutil.copy('%s/%s_patch.diff' % (src, SL), dst + '/patch.diff')
+shutil.copy('%s/%s_demo.rs' % (src, SL), dst + '/demo.rs')
+meta_txt = open('%s/%s_meta.txt' % (src, SL)).read()
 json.dump({'property': prop, 'needs_to_manifest': needs, 'agent_notes': meta_txt,
-           'confirmed_by': 'tools/seedconfirm.sh %s %s (existing crate tests pass with patch; demo fails with patch, passes without)' % (prop, L),
+           'confirmed_by': 'tools/seedconfirm.sh %s %s (existing crate tests pass with patch; demo fails with patch, passes without)' % (srcdir, SL),
            'check_result': caught}, open(dst + '/meta.json', 'w'), indent=1)
 print('saved', dst)
